@@ -1,5 +1,20 @@
 import Acra.Drv.SpecFTI
+import Acra.Drv.SpecFTI2
+import Acra.Drv.SpecSearch
+import Acra.Drv.SpecMpeg
+import Acra.Drv.SpecCh10
+import Acra.Drv.SpecNet
+import Acra.Drv.SpecGolay7
 import Acra.Drv.SpecCh11
 namespace Acra.Drv
-def specFuncs : List Func := specFuncsFTI ++ specFuncsCh11
+def specFuncs : List Func := List.flatten [
+  specFuncsFTI,
+  specFuncsFTI2,
+  specFuncsSearch,
+  specFuncsMpeg,
+  specFuncsCh10,
+  specFuncsNet,
+  specFuncsGolay7,
+  specFuncsCh11
+]
 end Acra.Drv
